@@ -98,20 +98,24 @@ COMMENTS = r'(?:/\*[^*]*\*+(?:[^/*][^*]*\*+)*/)'
 # Whitespace with comments included
 WSC = fr'(?:{WS}|{COMMENTS})'
 # CSS escapes
-CSS_ESCAPES = fr'(?:\\(?:[a-f0-9]{{1,6}}{WS}?|[^\r\n\f]|$))'
-CSS_STRING_ESCAPES = fr'(?:\\(?:[a-f0-9]{{1,6}}{WS}?|[^\r\n\f]|$|{NEWLINE}))'
+# A hex escape takes all the hex digits that are there (up to 6) and one whitespace if it is there.
+# Both choices are made deterministic with look-aheads, and an escaped character is not a hex digit,
+# so that an escape can be read in one way only (a backtracking matcher has nothing to retry).
+HEX_ESCAPE = fr'(?:[a-f0-9]{{6}}|[a-f0-9]{{1,5}}(?![a-f0-9]))(?:{WS}|(?![ \t\r\n\f]))'
+CSS_ESCAPES = fr'(?:\\(?:{HEX_ESCAPE}|[^\r\n\fa-f0-9]|$))'
+CSS_STRING_ESCAPES = fr'(?:\\(?:{HEX_ESCAPE}|[^\r\n\fa-f0-9]|{NEWLINE}))'
 # CSS Identifier
 IDENTIFIER = fr'''
-(?:(?:-?(?:[^\x00-\x2f\x30-\x40\x5B-\x5E\x60\x7B-\x7f]|{CSS_ESCAPES})+|--)
+(?:(?:--|-?(?:[^\x00-\x2f\x30-\x40\x5B-\x5E\x60\x7B-\x7f]|{CSS_ESCAPES}))
 (?:[^\x00-\x2c\x2e\x2f\x3A-\x40\x5B-\x5E\x60\x7B-\x7f]|{CSS_ESCAPES})*)
 '''
 # `nth` content
 NTH = fr'(?:[-+])?(?:[0-9]+n?|n)(?:(?<=n){WSC}*(?:[-+]){WSC}*(?:[0-9]+))?'
 # Value: quoted string or identifier
 VALUE = fr'''
-(?:"(?:\\(?:[a-f0-9]{{1,6}}{WS}?|.|{NEWLINE})|[^\\"\r\n\f]+)*?"|
-'(?:\\(?:[a-f0-9]{{1,6}}{WS}?|.|{NEWLINE})|[^\\'\r\n\f]+)*?'|
-{IDENTIFIER}+)
+(?:"(?:{CSS_STRING_ESCAPES}|[^\\"\r\n\f])*?"|
+'(?:{CSS_STRING_ESCAPES}|[^\\'\r\n\f])*?'|
+{IDENTIFIER})
 '''
 # Attribute value comparison. `!=` is handled special as it is non-standard.
 ATTR = fr'(?:{WSC}*(?P<cmp>[!~^|*$]?=){WSC}*(?P<value>{VALUE})(?:{WSC}*(?P<case>[is]))?)?{WSC}*\]'
